@@ -473,7 +473,69 @@ def units(tier):
     field_zp_units(U, thorough)
     z2_units(U)
     element_operator_units(U)
+    small_multifield_units(U, thorough)
     return U
+
+
+# ------------------------------------------------------------------------------------------------ small multi-field, end to end
+def small_multifield_units(U, thorough):
+    """Multi_field_operators_with_small_characteristics, real functions inlined, per concrete prime range: the tables
+    built by the real set_characteristic, then for EVERY element e < P and EVERY sub-product Q (symbolic subset of the
+    primes) get_partial_inverse(e, Q) = (v, T) with T = prod{q | Q : q does not divide e}, v*e == 1 mod each prime of
+    T and v == 0 mod every other prime of the range; get_inverse likewise for Q = P."""
+    pr = PROF["mfs_ops"]
+    path = pr.path
+    ranges = [(2, 3), (2, 5)] + ([(7, 7), (3, 7), (2, 7)] if thorough else [])
+    VEC = """
+#define PCAP 8
+typedef struct { unsigned int a[PCAP]; size_t n; } vp_vec_u8;
+vp_vec_u8 primes_, partials_;
+unsigned int productOfAllCharacteristics_;
+typedef struct { unsigned int first; unsigned int second; } vp_pair_uu;
+#define VP_PUSHP(v, x) do { __CPROVER_assert((v).n < PCAP, "R7: push_back within capacity"); (v).a[(v).n++] = (x); } while (0)
+"""
+    vsubs = [(r"primes_\.clear\(\);", "primes_.n = 0;", 0), (r"primes_\.push_back\(i\);", "VP_PUSHP(primes_, i);", 0), (r"primes_\.empty\(\)", "(primes_.n == 0)", 0),
+             (r"partials_\.resize\(primes_\.size\(\)\);", "partials_.n = primes_.n;", 0), (r"primes_\.size\(\)", "primes_.n", 0),
+             (r"primes_\[", "primes_.a[", 0), (r"partials_\[", "partials_.a[", 0), (r"std::gcd\(", "vp_gcd_u(", 0)]
+    SC = [MFSO]
+    f_isp = Fn(path, MFSO + r"::_is_prime\(const int p\)", "_is_prime", "", scopes=SC, sig_subs=[(r"^.*?_is_prime\(", "bool _is_prime(")])
+    f_setc = Fn(path, r"void set_characteristic\(int minimum, int maximum\)", "set_characteristic", "", subs=vsubs)
+    f_mid = Fn(path, r"static constexpr Element get_multiplicative_identity\(\)", "get_multiplicative_identity", "")
+    f_pmid = Fn(path, r"Element get_partial_multiplicative_identity\(const Characteristic& productOfCharacteristics\) const", "get_partial_multiplicative_identity", "", subs=vsubs)
+    f_ginv = Fn(path, MFSO + r"::_get_inverse\(Element element,\s*Characteristic mod\)", "_get_inverse", "", scopes=SC, sig_subs=[(r"^.*?_get_inverse\(", "long int _get_inverse(")])
+    f_pinv = Fn(path, r"std::pair<Element, Characteristic> get_partial_inverse\(\s*const Element& e, const Characteristic& productOfCharacteristics\) const", "get_partial_inverse", "",
+                sig_subs=[(r"std::pair<Element, Characteristic>", "vp_pair_uu")],
+                subs=vsubs + [(r"return \{([^;]*)\};", r"return (vp_pair_uu){\1};", 2), (r"auto res =", "Element res =")])
+    f_inv = Fn(path, r"Element get_inverse\(const Element& e\) const", "get_inverse", "")
+    for lo, hi in ranges:
+        primes = [p for p in range(max(lo, 2), hi + 1) if all(p % d for d in range(2, p))]
+        P = 1
+        for p in primes:
+            P *= p
+        chk = "\n".join(f"  if (mask >> {k} & 1) {{ Q *= {p}u; if (e % {p}u != 0) T *= {p}u; }}" for k, p in enumerate(primes))
+        res = "\n".join(f"  __CPROVER_assert(T % {p}u == 0 ? ((uint64_t)(e % {p}u) * (r.first % {p}u)) % {p}u == 1 : r.first % {p}u == 0, \"partial inverse: inverse of e modulo {p} when {p} divides T, 0 modulo {p} otherwise\");" for p in primes)
+        resi = "\n".join(f"  __CPROVER_assert(e % {p}u != 0 ? ((uint64_t)(e % {p}u) * (v % {p}u)) % {p}u == 1 : v % {p}u == 0, \"get_inverse: inverse modulo {p} where e is invertible, 0 otherwise\");" for p in primes)
+        body = f"""
+  g_thrown = 0; primes_.n = 0; partials_.n = 0;
+  set_characteristic({lo}, {hi});
+  __CPROVER_assert(g_thrown == 0 && productOfAllCharacteristics_ == {P}u && primes_.n == {len(primes)}, "set_characteristic: the product of the primes of the range");
+  unsigned int e = nondet_uint(), mask = nondet_uint();
+  __CPROVER_assume(e < {P}u && mask >= 1 && mask < {1 << len(primes)}u);
+  unsigned int Q = 1, T = 1;
+{chk}
+  vp_pair_uu r = get_partial_inverse(e, Q);
+  __CPROVER_assert(r.second == T, "partial inverse: T is the product of the primes of Q at which e is invertible");
+  __CPROVER_assert(r.first < {P}u, "partial inverse: value reduced");
+{res}
+  unsigned int v = get_inverse(e);
+{resi}
+"""
+        U.append(Unit(f"mfs_ops.partial_inverse.range_{lo}_{hi}", "C10",
+                      [fn_add(pr), fn_mul(pr, contract="", loops=False, canary=False), f_isp, f_ginv, f_mid, f_pmid, f_setc, f_pinv, f_inv],
+                      no_enforce=True, typedefs=TD_U, globals_=VEC, unwind=40, route="B", object_bits=10,
+                      bound=f"prime range [{lo},{hi}] (P = {P}); every element and every sub-product symbolic", inputs=["e", "mask"],
+                      replay=mk_replay_native("mfs_ops"), harness=H("", "", post=body), runs=[Run(backend="kissat", timeout=900)],
+                      desc=f"Multi_field_operators_with_small_characteristics on [{lo},{hi}], real functions inlined: get_partial_inverse / get_inverse against the definition, all e < {P}, all sub-products"))
 
 
 # ------------------------------------------------------------------------------------------------ inverses
